@@ -446,6 +446,32 @@ def check_property(pid, tier):
                 for x in [x for x in undecided if x.startswith(u + ':')]:
                     print('NOTE: property=%s Verus could not decide (%s); the replay tests of the unit found a failing input' % (pid, x.split('\n')[0][:200]))
                 undecided = [x for x in undecided if not x.startswith(u + ':')]
+        if not undecided and pc.get('bounded_replay'):
+            # bounded stand-ins registered for this property: replay test modules run on the real code (concrete inputs);
+            # reported under `bounded`, never counted as proved; a failing test is a violation with its failing input
+            import replay
+            tiers_ok = pc.get('bounded_replay_tiers', ['quick', 'thorough'])
+            for m in replay._registry(VERIF):
+                if m['file'] not in pc['bounded_replay'] or tier not in tiers_ok:
+                    continue
+                tests = m.get('tests', {})
+                t1 = time.time()
+                try:
+                    ran, fails, tail = replay.run_module(m, REPO, VERIF)
+                except Exception as e:  # noqa
+                    ran, fails, tail = False, [], str(e)
+                fails = [f for f in fails if pid in tests.get(f[0], [pid])]
+                e = dict(obligations={}, failed=[], undecided=[], trusted=[],
+                         bounded=[dict(harness='replay:' + m['file'], bound='the concrete inputs of the test module', status='failed' if fails else ('ok' if ran else 'did not run'),
+                                       claim='replay tests %s' % m['filter'])],
+                         backend=dict(unit='replay:' + m['file'], backend='cargo test (bounded stand-in)', wall_s=round(time.time() - t1, 1), cmd='cargo test %s' % m['filter'], complete=False))
+                if not ran:
+                    e['undecided'].append('replay module %s did not run: %s' % (m['file'], tail[-300:]))
+                for (t, msg, at) in fails[:3]:
+                    e['failed'].append(dict(ob='%s.replay.%s' % (m.get('unit', 'replay'), t), fn=t, kind='replay-bounded',
+                                            message='replay test failed on the real code: %s (at %s)' % (msg, at), text='registered replay test %s of %s' % (t, m['file']),
+                                            serves=[pid], rendered='%s: %s (%s)' % (t, msg, at), unit=m.get('unit', 'replay'), cex=[dict(test=t, message=msg, at=at)]))
+                extra.append(e)
         violations = []
         known_hits = []
         total_obs = {}
